@@ -154,7 +154,7 @@ def _out_array(box, name, span, is_log):
     return a, key
 
 
-def prepare(c, model, input_db, span, kwargs, tag="kalman_filter"):
+def prepare(c, model, input_db, span, kwargs, tag="kalman_filter", allow_ant=False):
     """certificates + joint distribution; returns dict or None (inconclusive recorded under `tag`)"""
     if model.num_variants != 1:
         c.inconc(f"{tag}:multi-variant-call-not-decided")
@@ -164,7 +164,7 @@ def prepare(c, model, input_db, span, kwargs, tag="kalman_filter"):
         c.inconc(f"{tag}:option-not-decided")
         return None
     J = build_joint(model, input_db, span, kwargs)
-    if J["ant_present"]:
+    if J["ant_present"] and not allow_ant:
         c.inconc(f"{tag}:anticipated-shock-means-not-decided")
         return None
     T, P, K, Z, H, D = J["T"], J["P"], J["K"], J["Z"], J["H"], J["D"]
@@ -201,7 +201,23 @@ def prepare(c, model, input_db, span, kwargs, tag="kalman_filter"):
         # unit roots: work on the block-triangular state alpha (xi = Ua alpha) whose first k elements are the unit-root block;
         # alpha_0 = [delta; alpha_s0], delta a fixed unknown (fixed_unknown: GLS estimate from the whole sample) or zero (fixed_zero)
         sol = J["sol"]
-        Ta, Pa, Ka, Za, Ua = (np.asarray(getattr(sol, k_), dtype=float) for k_ in ("Ta", "Pa", "Ka", "Za", "Ua"))
+        # only the change of basis Ua is taken from irispie; the triangular system itself is re-derived from the square
+        # solution (T Ua = Ua Ta, P = Ua Pa, K = Ua Ka, Za = Z Ua), so that a damaged stored Ta/Pa/Ka/Za (e.g. zeroed in place by
+        # an earlier query on the same model object) cannot leak into the oracle
+        Ua = np.asarray(sol.Ua, dtype=float)
+        if Ua.shape != (n, n) or np.linalg.cond(Ua) > 1e8:
+            c.inconc(f"{tag}:triangular-basis-not-usable")
+            return None
+        Ta = np.linalg.solve(Ua, T @ Ua)
+        Pa = np.linalg.solve(Ua, P)
+        Ka = np.linalg.solve(Ua, np.asarray(K, dtype=float).reshape(n, -1)).reshape(np.shape(K))
+        Za = Z @ Ua
+        for nm_, own in (("Ta", Ta), ("Pa", Pa), ("Ka", Ka), ("Za", Za)):
+            if nm_ == "Ka" and J["deviation"]:
+                continue
+            theirs = np.asarray(getattr(sol, nm_), dtype=float).reshape(own.shape)
+            if np.max(np.abs(theirs - own), initial=0) > 1e-8 * (1 + np.max(np.abs(own), initial=0)):
+                c.note(f"{tag}:stored-{nm_}-differs-from-square-solution")
         if J["deviation"]:
             Ka = np.zeros_like(Ka)
         ku = int(sol.num_unit_roots)
@@ -398,7 +414,7 @@ def _name(J, lab, zero_shift):
 # ------------------------------------------------------------------------------
 
 
-def make_case(rng):
+def make_case(rng, ant=False):
     r = rng.random()
     if r < 0.6:
         family = "L"
@@ -449,10 +465,21 @@ def make_case(rng):
         opts["shocks_from_data"] = True
         means = {q["name"]: [float(np.round(rng.normal(0, 0.5) * (0.05 if family == "N" else 1.0), 4)) if rng.random() < 0.4 else 0.0 for _ in range(N)]
                  for q in spec["tshocks"] + spec["mshocks"]}
+    if ant and spec["tshocks"] and N >= 3 and rng.random() < 0.35:
+        # anticipated (announced) shock paths handed to the filter with the data; only C08 decides these cases
+        opts["shocks_from_data"] = True
+        means = dict(means or {})
+        for q in spec["tshocks"]:
+            if rng.random() < 0.6:
+                vals = [0.0] * N
+                for _ in range(int(rng.integers(1, 3))):
+                    vals[int(rng.integers(1, N))] = float(np.round(rng.normal(0, 0.5) * (0.05 if family == "N" else 1.0), 4))
+                means["ant_" + q["name"]] = vals
     rr = M.render_source(spec, None, 0)
     return {"kind": "kalman", "family": family, "spec": spec, "steady": steady, "meta": meta, "source": rr["source"], "N": N,
             "mask": mask.astype(int).tolist(), "mask_kind": mask_kind, "stds": stds, "opts": opts, "tv_stds": tv, "shock_means": means,
-            "data_seed": int(rng.integers(0, 10 ** 6)), "freq": str(rng.choice(["qq", "mm", "yy"]))}
+            "data_seed": int(rng.integers(0, 10 ** 6)), "freq": str(rng.choice(["qq", "mm", "yy"])),
+            "hist": int(rng.integers(0, 2 ** 31)) if rng.random() < 0.4 else None}
 
 
 def build_model_and_data(c, case):
@@ -480,6 +507,12 @@ def build_model_and_data(c, case):
     if "MULTIPLE" in s or "NO_" in s:
         c.inconc("model-not-determinate")
         return None
+    if case.get("hist") is not None:
+        # history of the model object: query operations (autocovariances, simulations, other filter runs, ...) before the
+        # monitored filter run on the same solved model
+        from ..workloads import history as Hist
+        for op in Hist.perturb(m, case["hist"], spec, freq=case["freq"]):
+            c.note("history:" + op)
     N = case["N"]
     start = {"qq": ir.qq(2021, 2), "mm": ir.mm(2019, 11), "yy": ir.yy(1990)}[case["freq"]]
     span = ir.Span(start, start + (N - 1))
